@@ -278,6 +278,9 @@ structure Cfg where
   /-- the cursor is a slot (`scan_slot` of the next element, in the order of (slot, name)): true;
       or a rank in the list sorted by name, rebuilt on every call: false -/
   slotCursor : Bool
+  /-- `handle_scan` lower-cases the TYPE value (`to_ascii_lowercase`) before the engine compares it
+      with the lower-case type names: true; it passes the value as given: false -/
+  typeFold : Bool
   deriving Repr, DecidableEq
 
 def Cfg.ok (g : Cfg) : Prop := 1 ≤ g.dflt ∧ 1 ≤ g.cap ∧ 1 ≤ g.factor
@@ -381,6 +384,19 @@ def typeOk (ty : Option Bytes) (t : Nat) : Bool :=
   match ty with
   | none => true
   | some s => typeName t == s
+
+def lowerAscii (b : Nat) : Nat := if 65 ≤ b ∧ b ≤ 90 then b + 32 else b
+
+namespace Spec
+
+/-- What `TYPE name` selects: the keys whose type name equals `name` without regard to the case of
+    ASCII letters (Redis: `strcasecmp`).  An unknown name selects nothing. -/
+def typeOk (ty : Option Bytes) (t : Nat) : Bool :=
+  match ty with
+  | none => true
+  | some s => typeName t == s.map lowerAscii
+
+end Spec
 
 /-- The list the cursor indexes: keys of the requested type, sorted. -/
 def view (ty : Option Bytes) (db : Db) : List Bytes :=
@@ -563,13 +579,22 @@ def parseOpts (allowType allowNoValues : Bool) : List Bytes → Opts → Option 
       parseOpts allowType allowNoValues rest { o with noValues := true }
     else none
 
+/-- The TYPE value as `handle_scan` hands it to the engine: lower-cased (`to_ascii_lowercase` on
+    the lossily decoded text; the type names are ASCII, so only the bytes `A`–`Z` matter) or as given. -/
+def typeArg (g : Cfg) (ty : Option Bytes) : Option Bytes :=
+  if g.typeFold then ty.map (·.map lowerAscii) else ty
+
+/-- What `handle_scan` executes once the options are parsed. -/
+def scanCmd (g : Cfg) (db : Db) (cursor count : Nat) (pat ty : Option Bytes) : Nat × List Bytes :=
+  scan g db cursor count pat (typeArg g ty)
+
 /-- `handle_scan` on `SCAN cursor [opts]` (arguments after the command name). -/
 def cmdScan (g : Cfg) (db : Db) (args : List Bytes) : Option (Nat × List Bytes) :=
   match args with
   | [] => none
   | cur :: opts =>
     match parseU64 cur, parseOpts true false opts {} with
-    | some c, some o => some (scan g db c o.count o.pat o.ty)
+    | some c, some o => some (scanCmd g db c o.count o.pat o.ty)
     | _, _ => none
 
 end Code
